@@ -776,8 +776,15 @@ int main(int argc, char **argv) {
     return 0;
   }
 
-  if (input_paths.len > 1 && opt_o && (opt_c || opt_S | opt_E))
-    error("cannot specify '-o' with '-c,' '-S' or '-E' with multiple files");
+  // -l and -Wl, arguments are kept in input_paths for their position
+  // among the linker's inputs, but they are not input files.
+  int num_files = 0;
+  for (int i = 0; i < input_paths.len; i++)
+    if (strncmp(input_paths.data[i], "-l", 2) && strncmp(input_paths.data[i], "-Wl,", 4))
+      num_files++;
+
+  if (num_files > 1 && opt_o && (opt_c || opt_S || opt_E || opt_M))
+    error("cannot specify '-o' with '-c,' '-S', '-E' or '-M' with multiple files");
 
   StringArray ld_args = {};
 
